@@ -22,7 +22,7 @@ CHECKS = {
     "C05": (False, "BSET containment matrix, constant-kind open-call audit, marker-first path rule, construction-sequence enumeration against the documented child grammar",
             "Structural parts of the node grammar: lists contain only items and items occur only in lists, every item starts with a marker, reference definitions/links/images/autolinks are built with the documented child sequences on every construction path, leaf blocks receive only their verbatim leaf kinds, list/item delimiter agreement. Delimiter-stack dependent clauses (no unparsed left, no link in link) and numeric accessor ranges are not decided.",
             "go/ssa; grammar tables transcribed from the kinds' doc comments"),
-    "C07": (False, "HTML lexer-state typestate + escape taint over every append to the render buffer (HTX-L, HTX-T, HTX-RAW, HTX-EMIT, ESC-SET, VOCAB)",
+    "C07": (True, "HTML lexer-state typestate + escape taint over every append to the render buffer (HTX-L, HTX-T, HTX-RAW, HTX-EMIT, ESC-SET, VOCAB)",
             "Every byte appended to the output buffer is part of a constant skeleton the HTML lexer accepts as quoted start/end tags with constant names, or dynamic text that passed a sanitiser adequate for its lexical context, or one of two verbatim leaf kinds restricted by the parser (assumption). Holds for all inputs and configurations because the state set carries all configurations.",
             "html.EscapeString and escapeHTML's copy arithmetic trusted as sanitisers; parser invariants on character-reference and soft-break spans assumed"),
     "C08": (True, "SSA dominance rules on the reader loop: error latch, no read after error, sticky error, read count used unconditionally, same machine, two-pass order",
@@ -43,7 +43,7 @@ CHECKS = {
     "C15": (True, "exact accept sets of byte/rune classifiers by finite-domain set propagation over SSA (BSET), compared with sets transcribed from CommonMark 0.30 / RFC 3986",
             "For each of the 9 byte/rune classifiers and 2 byte maps the exact accept set / mapping over all 256 bytes resp. all 1,114,112 code points equals the spec's definition; NormalizeURI's constant safe set is within RFC 3986 reserved ∪ unreserved and every byte it writes is '%', a urlHexDigit result or a rune guarded by the safe-set test. The line recognisers, e-mail recogniser and URI idempotence are loop automata and are not decided.",
             "go/ssa; Unicode tables of the Go standard library; oracle sets transcribed in checker/c15.go"),
-    "C17": (False, "who-may-emit-markup rule over all appends (HTX-EMIT), filterRaw provenance, lower-casing and nil-filter dominance rules, BSET superset check of the GFM predicate",
+    "C17": (True, "who-may-emit-markup rule over all appends (HTX-EMIT), filterRaw provenance, lower-casing and nil-filter dominance rules, BSET superset check of the GFM predicate",
             "Emitter-side clauses: every tag the renderer itself writes goes through the FilterTag-consulting emitters, filterRaw appends only sub-slices of its input or the constant &lt;, FilterTag arguments are lower-cased names, FilterTagGFM rejects at least the nine GFM raw-text elements, and no filtering branch is taken with a nil predicate. Agreement of filterRaw's scanner with the WHATWG tokenizer is not decided.",
             "go/ssa; atom table of golang.org/x/net/html/atom read as data"),
     "C18": (True, "eight SSA shape obligations on commonmark.Walk (W1–W8): child-function indirection, prune/abort edges, cursor coherence, post-frame ordering, traversal order",
